@@ -18,7 +18,7 @@ def base_discretization(ds, cfg):
     vo = {k: GroupedList(list(v)) for k, v in ds["values_orders"].items()}
     disc = Discretizer(quantitative_features=list(ds["quantitative"]), qualitative_features=list(ds["qualitative"]),
                        ordinal_features=list(ds["ordinal"]), min_freq=cfg["min_freq"], values_orders=vo,
-                       str_nan=NAN, str_default="__OTHER__", copy=True)
+                       copy=True, **{"str_nan": NAN, "str_default": "__OTHER__", **cfg.get("markers", {})})
     with warnings.catch_warnings():
         warnings.simplefilter("ignore")
         Xd = disc.fit_transform(ds["X"], ds["y"])
@@ -66,6 +66,7 @@ def impl_grouping(carver, f, base_col, X, labels):
 
 
 def carve_request(ds, cfg, f, labels, Xd, Xd_dev, kind, flags):
+    NAN = cfg.get("markers", {}).get("str_nan", globals()["NAN"])
     labs = [l for l in labels if l != NAN]
     has_nan = NAN in labels
     alll = labs + ([NAN] if has_nan else [])
